@@ -121,12 +121,27 @@ func TestVerifScenario(t *testing.T) {
 	log.SetOutput(io.Discard)
 	cam := vfCam{40, 30, 9}
 	rec := NewCPTVFileRecorder(vfConf(dir), cam, "flir", "lepton3", 77, "1.2.3")
+	// upper-case ops drive a second recorder on the same directory (handleConn gives the test-recording
+	// recorder the same output directory as the motion recorder); 'z' sleeps 3 ms
+	recB := NewCPTVFileRecorder(vfConf(dir), cam, "flir", "lepton3", 77, "1.2.3")
 	rnd := rand.New(rand.NewSource(5))
 	bg := cptvframe.NewFrame(cam)
 	f := cptvframe.NewFrame(cam)
 	os.Stderr.WriteString("VERIF-MARK begin\n")
 	for _, op := range ops {
 		switch op {
+		case 'z':
+			time.Sleep(3 * time.Millisecond)
+		case 'S':
+			if err := recB.StartRecording(bg, 2950); err != nil {
+				t.Fatal(err)
+			}
+		case 'W':
+			f.Status.TimeOn += 111 * time.Millisecond
+			recB.WriteFrame(f)
+		case 'P':
+			recB.StopRecording()
+			time.Sleep(2 * time.Millisecond)
 		case 's':
 			if err := rec.StartRecording(bg, 2950); err != nil {
 				t.Fatal(err)
